@@ -40,14 +40,6 @@ ImplParamValue(p) ==
     IF p.list THEN Join([i \in 1..Len(p.vals) |-> ImplDquote(p.vals[i])], <<COMMA>>)
     ELSE ImplDquote(p.vals[1])
 
-\* lexicographic order on code point sequences (Python str <)
-RECURSIVE LexLess(_, _)
-LexLess(a, b) ==
-    IF a = <<>> THEN b # <<>>
-    ELSE IF b = <<>> THEN FALSE
-    ELSE IF a[1] # b[1] THEN a[1] < b[1]
-    ELSE LexLess(Tail(a), Tail(b))
-
 \* stable selection sort of parameter records by key
 RECURSIVE SortParams(_)
 SortParams(ps) ==
